@@ -61,38 +61,39 @@ def rule_R2(ctx, f):
                    "hash_label_values must hash each element of `vals` in slice order (found %s)" % show(w.args[1]), site=w.span)
             ctx.ob(rid, "hash_label_values|write#%d|every-element" % i, hc.every_element(b, w) is True,
                    "hash_label_values must hash every element of `vals`: no path through the loop body may skip the write (an empty or otherwise special value is still a value)", site=w.span)
+    from pvrules import seqeval
+    want_seq = [("each", VARLABELS, (("lookup", P2),))]
+
+    def seq_ok(seq):
+        return seq is not None and [sg[:3] for sg in seq] == want_seq
     b = ctx.anchor(rid, "hash_labels", f.body(MV + "hash_labels"))
     if b:
         ws = b.calls_to("Hasher::write")
         ctx.floor(rid, "writes in hash_labels", len(ws), 1)
+        seq = seqeval.sink_seq(b, ws, lambda s_: s_.args[1]) if ws else None
+        ctx.ob(rid, "hash_labels|write#0", seq_ok(seq),
+               "hash_labels must hash labels[name] for each declared variable label name in declared order (found %s)" % seqeval.show_seq(seq), site=ws[0].span if ws else b.raw["span"]["at"])
         for i, w in enumerate(ws):
-            v = peel(w.args[1], transparent=["str::as_bytes", "AsRef::as_ref", "String::as_bytes"])
-            ctx.ob(rid, "hash_labels|write#%d" % i, _lookup_by_name(b, w.args[1] if False else ("ref", v)) or _lookup_by_name(b, v),
-                   "hash_labels must hash labels[name] for each declared variable label name in declared order (found %s)" % show(w.args[1]), site=w.span)
             ctx.ob(rid, "hash_labels|write#%d|every-element" % i, hc.every_element(b, w) is True,
                    "hash_labels must hash the value of every declared name: no path through the loop body may reach the next name without the write", site=w.span)
     b = ctx.anchor(rid, "get_label_values", f.body(MV + "get_label_values"))
     if b:
-        ps = b.calls_to("Vec::push")
-        ctx.floor(rid, "pushes in get_label_values", len(ps), 1)
-        for i, p in enumerate(ps):
-            v = peel(p.args[1], transparent=["AsRef::as_ref"])
-            ctx.ob(rid, "get_label_values|push#%d" % i, _lookup_by_name(b, v),
-                   "get_label_values must collect labels[name] for each declared variable label name in declared order (found %s)" % show(p.args[1]), site=p.span)
-            ctx.ob(rid, "get_label_values|push#%d|every-element" % i, hc.every_element(b, p) is True,
-                   "get_label_values must collect the value of every declared name: no path through the loop body may skip the push", site=p.span)
-        r = b.term_local(0)
-        oks = [s for s in subterms(r)] if False else None
-        # the Ok value is the vector that received the pushes
+        # what is returned on success: the Vec that was filled, or a collect::<Result<Vec<_>>>() of the per-name lookups
         _, okb = result_assign_blocks(b)
-        vec_terms = {peel(p.args[0]) for p in ps}
         ok_val = None
         for bi in okb:
             for st in b.blocks[bi]["stmts"]:
                 if st["k"] == "assign" and st["pl"]["l"] == 0 and st["rv"]["k"] == "agg":
                     ok_val = b.term_operand(st["rv"]["ops"][0])
-        ctx.ob(rid, "get_label_values|returns-collected", ok_val is not None and peel(ok_val) in vec_terms,
-               "get_label_values must return the vector it filled", site=b.raw["span"]["at"])
+        seq = None
+        r0 = peel(b.term_local(0), transparent=[])
+        if ok_val is not None and seqeval.is_vec_local(b, peel(ok_val)):
+            seq = seqeval.vec_seq(b, peel(ok_val))
+        elif is_call(r0, "Iterator::collect") and "Result<" in r0[1]:
+            seq = seqeval.iter_seq(b, r0[2][0])
+        ctx.ob(rid, "get_label_values|push#0", seq_ok(seq),
+               "get_label_values must collect labels[name] for each declared variable label name in declared order (found %s)" % seqeval.show_seq(seq), site=b.raw["span"]["at"])
+        ctx.ob(rid, "get_label_values|returns-collected", seq is not None, "get_label_values must return the values it collected", site=b.raw["span"]["at"])
 
 
 def _hash_then_create(ctx, rid, f, m, hashfn, vals_pred, what):
@@ -194,13 +195,25 @@ def rule_R4(ctx, f):
             continue
         # None arm of labels.get(name) -> Err
         n = 0
-        for c in b.calls_to("HashMap::get"):
-            si = b.switch_info(c.target) if c.target is not None else None
-            if si and si[0][0] == "discr":
-                none_t = [t for v, t in si[1] if v == 0]
-                if none_t:
-                    n += 1
-                    ctx.ob(rid, m + "|missing-name-rejects", rejecting(b, none_t[0]), "a missing label name must lead to Err", site=c.span)
+        for bd in [b] + f.closures_of(b):
+            for c in bd.calls_to("HashMap::get"):
+                si = bd.switch_info(c.target) if c.target is not None else None
+                if si and si[0][0] == "discr":
+                    none_t = [t for v, t in si[1] if v == 0]
+                    if none_t:
+                        n += 1
+                        ctx.ob(rid, m + "|missing-name-rejects", rejecting(bd, none_t[0]), "a missing label name must lead to Err", site=c.span)
+        # the same with combinators: labels.get(name).ok_or_else(|| Err)?  (in the body or in the closure of a map(..).collect::<Result<_>>())
+        for bd in [b] + f.closures_of(b):
+            for c in bd.calls_to(["Option::ok_or_else", "Option::ok_or"]):
+                src = c.args[0]
+                while is_call(peel(src, transparent=[]), ["Option::map", "Option::copied", "Option::cloned"]):
+                    src = peel(src, transparent=[])[2][0]
+                if not is_call(peel(src, transparent=[]), "HashMap::get"):
+                    continue
+                propagated = (bd is b and try_continue_block(b, c) is not None) or (bd is not b and peel(bd.term_local(0), transparent=[]) == c.result_term())
+                n += 1
+                ctx.ob(rid, m + "|missing-name-rejects", propagated, "a missing label name must lead to Err (the Err of ok_or_else must be propagated)", site=c.span)
         ctx.floor(rid, "missing-name tests in " + m, n, 1)
 
 
@@ -216,33 +229,53 @@ def rule_R5(ctx, f):
     sv = b.calls_to("LabelPair::set_value")
     ps = b.calls_to("Vec::push")
     so = b.calls_to(["slice::sort", "slice::sort_unstable", "slice::sort_by", "slice::sort_by_key"])
-    ctx.ob(rid, "shape", len(sn) == 1 and len(sv) == 1 and len(ps) == 2 and len(so) == 1,
-           "make_label_pairs must have one set_name/set_value pair, two pushes (variable and constant pairs) and one sort (found %d/%d/%d/%d)" % (len(sn), len(sv), len(ps), len(so)),
-           site=b.raw["span"]["at"])
-    if not (len(sn) == 1 and len(sv) == 1 and len(ps) == 2 and len(so) == 1):
+    from pvrules import seqeval
+    exts = [c for c in b.calls_to(["Vec::extend", "Extend::extend", "Vec::extend_from_slice"])]
+    shape_ok = len(sn) == 1 and len(sv) == 1 and len(so) == 1 and (len(ps) == 2 or (len(ps) == 1 and len(exts) == 1))
+    ctx.ob(rid, "shape", shape_ok,
+           "make_label_pairs must have one set_name/set_value pair, one push of the variable pair, one push or extend for the constant pairs and one sort (found %d/%d/%d+%d/%d)" % (
+               len(sn), len(sv), len(ps), len(exts), len(so)), site=b.raw["span"]["at"])
+    if not shape_ok:
         return
     en = elem_of(peel(sn[0].args[1]))
-    ok_n = bool(en) and en[0] == ("field", ("deref", P1), "variable_labels") and "enumerate" in en[1] and en[2] == ["1"]
-    ctx.ob(rid, "name-from-declared", ok_n, "the pair's name must be the enumerated element of desc.variable_labels (found %s)" % show(sn[0].args[1]), site=sn[0].span)
+    zipped = bool(en) and "zip" in en[1]
+    ok_n = bool(en) and en[0] == ("field", ("deref", P1), "variable_labels") and ((("enumerate" in en[1]) and en[2] == ["1"]) or (zipped and en[2] == ["0"])) \
+        and not [a for a in en[1] if a not in ("iter", "into_iter", "enumerate", "zip")]
+    ctx.ob(rid, "name-from-declared", ok_n, "the pair's name must be the element of desc.variable_labels of this iteration (found %s)" % show(sn[0].args[1]), site=sn[0].span)
     v = peel(sv[0].args[1], transparent=["AsRef::as_ref", "ToOwned::to_owned", "str::to_owned", "ToString::to_string", "String::from", "Into::into"])
     ok_v = False
     if v[0] == "index" and peel(v[1]) == P2:
         ei = elem_of(v[2])
         ok_v = bool(ei) and ei[0] == en[0] if en else False
         ok_v = ok_v and ei[2] == ["0"] and peel(sn[0].args[1])[1][1] == v[2][1][1] if ok_v else False
-    ctx.ob(rid, "value-same-index", ok_v, "the pair's value must be label_values[i] for the same enumeration index i (found %s)" % show(sv[0].args[1]), site=sv[0].span)
+    elif zipped:
+        # `for (n, v) in desc.variable_labels.iter().zip(label_values)`: the second half of the same pair, and the zip's second source is the argument
+        ev = elem_of(v)
+        zs = [z for z in subterms(v) if isinstance(z, tuple) and z and z[0] == "call" and is_call(z, "Iterator::zip")]
+        same_next = [x for x in subterms(v) if isinstance(x, tuple) and x and x[0] == "call" and is_call(x, "Iterator::next")] == \
+            [x for x in subterms(peel(sn[0].args[1])) if isinstance(x, tuple) and x and x[0] == "call" and is_call(x, "Iterator::next")]
+        ok_v = bool(ev) and ev[2] == ["1"] and same_next and len(zs) >= 1 and peel(zs[0][2][1], transparent=["IntoIterator::into_iter", "slice::iter", "Deref::deref"]) == P2
+    ctx.ob(rid, "value-same-index", ok_v, "the pair's value must be the label value at the same position as the name (found %s)" % show(sv[0].args[1]), site=sv[0].span)
     ctx.ob(rid, "same-pair", peel(sn[0].args[0]) == peel(sv[0].args[0]) and peel(ps[0].args[1]) == peel(sn[0].args[0]),
            "name and value must be set on the pair that is pushed", site=ps[0].span)
     ctx.ob(rid, "every-variable-pair", hc.every_element(b, ps[0], via=sn[0]) is True and hc.every_element(b, sv[0], via=sn[0]) is True,
            "a pair must be pushed for every declared variable label: no path through the loop body may skip set_value or the push (an empty value is still exposed)", site=ps[0].span)
-    ctx.ob(rid, "every-const-pair", hc.every_element(b, ps[1]) is True, "every constant pair must be pushed: no path through the loop body may skip the push", site=ps[1].span)
-    ec = elem_of(peel(ps[1].args[1]))
-    ctx.ob(rid, "const-pairs-appended", bool(ec) and ec[0] == ("field", ("deref", P1), "const_label_pairs") and not [a for a in ec[1] if a not in ("into_iter", "iter")],
-           "every constant label pair must be appended (found %s)" % show(ps[1].args[1]), site=ps[1].span)
+    CONSTS = ("field", ("deref", P1), "const_label_pairs")
+    if len(ps) == 2:
+        ctx.ob(rid, "every-const-pair", hc.every_element(b, ps[1]) is True, "every constant pair must be pushed: no path through the loop body may skip the push", site=ps[1].span)
+        ec = elem_of(peel(ps[1].args[1]))
+        okc = bool(ec) and ec[0] == CONSTS and not [a for a in ec[1] if a not in ("into_iter", "iter")]
+        csite = ps[1]
+    else:
+        sq = seqeval.iter_seq(b, exts[0].args[1])
+        okc = sq is not None and [sg[:3] for sg in sq] == [("each", CONSTS, ())] and peel(exts[0].args[0]) == peel(ps[0].args[0])
+        csite = exts[0]
+    ctx.ob(rid, "const-pairs-appended", okc, "every constant label pair must be appended (found %s)" % show(csite.args[1]), site=csite.span)
     vec = peel(ps[0].args[0])
     after_sort = b.strictly_after(so[0].bb)
-    ctx.ob(rid, "sorted", peel(so[0].args[0]) == vec and b.all_paths_pass(ps[0].bb, [so[0].bb]) and b.all_paths_pass(ps[1].bb, [so[0].bb])
-           and not any(p.bb in after_sort for p in ps),
+    appenders = ps + ([] if len(ps) == 2 else exts)
+    ctx.ob(rid, "sorted", peel(so[0].args[0]) == vec and all(b.all_paths_pass(p.bb, [so[0].bb]) for p in appenders)
+           and not any(p.bb in after_sort for p in appenders),
            "the filled vector must be sorted before it is returned", site=so[0].span)
     # cardinality test
     found = False
@@ -254,7 +287,7 @@ def rule_R5(ctx, f):
                 args = {peel(t[2][0]) for t in (x, y)}
                 if args == {("field", ("deref", P1), "variable_labels"), P2}:
                     bad = be[1] if be[0][1] == "Ne" else be[2]
-                    found = rejecting(b, bad)
+                    found = found or rejecting(b, bad)      # (a later debug_assert_eq! of the same lengths is not the test)
     ctx.ob(rid, "cardinality", found, "make_label_pairs must return Err when the number of values differs from the number of variable labels", site=b.raw["span"]["at"])
 
 
